@@ -200,7 +200,13 @@ def _vec(f, nin=1):
 
     def g(*args):
         args = [_plain(_obj(a)) for a in args]
-        return _unbox(uf(*args))
+        r = uf(*args)
+        if isinstance(r, _np.ndarray) and r.ndim > 1:
+            # NumPy's element-wise functions keep the memory layout of their inputs (order 'K')
+            same = [a for a in args if isinstance(a, _np.ndarray) and a.shape == r.shape]
+            if same and all(a.flags.f_contiguous and not a.flags.c_contiguous for a in same):
+                r = _np.asfortranarray(r)
+        return _unbox(r)
 
     return g
 
@@ -872,17 +878,30 @@ class NPShim:
     def empty(self, shape, dtype=None, like=None, **kw):
         return self.zeros(shape)
 
+    @staticmethod
+    def _intlike(dtype):
+        try:
+            return dtype is not None and _np.dtype(dtype).kind in "iub"
+        except TypeError:
+            return False
+
     def zeros(self, shape, dtype=None, like=None, **kw):
+        if self._intlike(dtype):
+            return _np.zeros(self._shape(shape), dtype=dtype)
         a = _np.empty(self._shape(shape), dtype=object)
         a[...] = 0
         return a.view(SArr)
 
     def ones(self, shape, dtype=None, like=None, **kw):
+        if self._intlike(dtype):
+            return _np.ones(self._shape(shape), dtype=dtype)
         a = _np.empty(self._shape(shape), dtype=object)
         a[...] = 1
         return a.view(SArr)
 
     def full(self, shape, fill_value, dtype=None, like=None, **kw):
+        if self._intlike(dtype) and not _sym(fill_value):
+            return _np.full(self._shape(shape), fill_value, dtype=dtype)
         a = _np.empty(self._shape(shape), dtype=object)
         a[...] = fill_value
         return a.view(SArr)
@@ -918,7 +937,7 @@ class NPShim:
         if not _hassym(a):
             return _np.array(a, dtype=dtype)
         if isinstance(a, _np.ndarray):
-            return a.copy().view(SArr)
+            return a.copy(order="K").view(SArr)
         r = _np.array(a, dtype=object)
         return r.view(SArr)
 
